@@ -27,6 +27,20 @@ type modCase struct {
 	More  bool       `json:"more"`  // further home-module probes (handler, type construction, type method)
 	Extra string     `json:"extra"` // extra statements appended to the main file (probe programs)
 	Sel   map[string][]string `json:"sel"` // selective import lists for main: module -> exported names
+	Names map[string]string   `json:"names"` // module symbol -> the name written in 导入“…” (segments separated by -); default: modName
+}
+
+func (c *modCase) nameOf(m string) string {
+	if n, ok := c.Names[m]; ok && n != "" {
+		return n
+	}
+	return modName[m]
+}
+
+func modPathN(dir, name string) string {
+	parts := strings.Split(name, "-")
+	parts[len(parts)-1] += ".zn"
+	return filepath.Join(append([]string{dir}, parts...)...)
 }
 
 func modPath(dir, m string) string {
@@ -64,7 +78,7 @@ func handleModule(raw json.RawMessage) interface{} {
 			sb.WriteString("导入《@JSON》\n")
 		}
 		for _, d := range deps {
-			sb.WriteString("导入“" + modName[d] + "”\n")
+			sb.WriteString("导入“" + c.nameOf(d) + "”\n")
 		}
 		hollow := false
 		for _, h := range c.Hollow {
@@ -73,7 +87,7 @@ func handleModule(raw json.RawMessage) interface{} {
 			}
 		}
 		if hollow {
-			p := modPath(dir, m)
+			p := modPathN(dir, c.nameOf(m))
 			os.MkdirAll(filepath.Dir(p), 0755)
 			os.WriteFile(p, []byte(sb.String()), 0644)
 			continue
@@ -96,7 +110,7 @@ func handleModule(raw json.RawMessage) interface{} {
 			}
 			fmt.Fprintf(&sb, "如何%s转？\n    输出以【%s】（拼接：“+”）\n", x, strings.Join(items, "，"))
 		}
-		p := modPath(dir, m)
+		p := modPathN(dir, c.nameOf(m))
 		os.MkdirAll(filepath.Dir(p), 0755)
 		os.WriteFile(p, []byte(sb.String()), 0644)
 	}
@@ -105,7 +119,7 @@ func handleModule(raw json.RawMessage) interface{} {
 		sb.WriteString("导入《@JSON》\n")
 	}
 	for _, m := range c.Main {
-		sb.WriteString("导入“" + modName[m] + "”")
+		sb.WriteString("导入“" + c.nameOf(m) + "”")
 		if names, ok := c.Sel[m]; ok {
 			sb.WriteString("之" + strings.Join(names, "、"))
 		}
